@@ -36,7 +36,11 @@ def main():
             if "replay" in spec:
                 from rv import codec
 
-                mod.run_case(codec.dec(spec["replay"]["case"]), ctx)
+                from rv.checks import common
+
+                case = codec.dec(spec["replay"]["case"])
+                common.set_case_globals(case)
+                mod.run_case(case, ctx)
             else:
                 mod.run(spec, ctx)
         finally:
